@@ -488,6 +488,8 @@ func checkClientErrorMapping(c *Ctx) {
 	}
 	ex := c.Explore(ri.Fn, 1, 4000)
 	checkedHelpers := false
+	laxReported := false
+	nStrict := 0
 	nMethods := 0
 	ctBad, ctBadPos, retBadPos := "", "", ""
 	for _, v := range ex.Variants {
@@ -510,6 +512,21 @@ func checkClientErrorMapping(c *Ctx) {
 					return ""
 				}
 				switch {
+				case fd.Name.Name == "unmarshalResponse":
+					// handleErrorResponse classifies an error body by trial decoding (ValidationError, then Error, then raw):
+					// that only works while the JSON decoder rejects unknown fields
+					lax := false
+					ast.Inspect(fd.Body, func(n ast.Node) bool {
+						if kv, ok := n.(*ast.KeyValueExpr); ok && types.ExprString(kv.Key) == "DiscardUnknown" && types.ExprString(kv.Value) == "true" {
+							lax = true
+						}
+						return true
+					})
+					if lax && !laxReported {
+						laxReported = true
+						r.Bad("R10e", "go-client unmarshalResponse decodes strictly (unknown fields are errors)", gen(fd.Pos()), "the emitted unmarshalResponse sets DiscardUnknown: handleErrorResponse tells ValidationError, Error and other bodies apart by trial decoding, so with a lax decoder every JSON object decodes as an (empty) ValidationError or Error — a custom proto error or a hook's 400 loses its status and body and is reported as the wrong type", nil)
+					}
+					nStrict++
 				case fd.Name.Name == "handleErrorResponse" && !checkedHelpers:
 					checkedHelpers = true
 					// first statement: if statusCode == http.StatusBadRequest { try ValidationError }
@@ -593,6 +610,9 @@ func checkClientErrorMapping(c *Ctx) {
 	if !checkedHelpers {
 		r.Unres("R10e", "go-client handleErrorResponse", "", "helper not found in any client variant")
 	}
+	if nStrict > 0 && !laxReported {
+		r.OKd("R10e", "go-client unmarshalResponse decodes strictly (unknown fields are errors)", "", map[string]any{"variants": nStrict})
+	}
 	if nMethods == 0 {
 		r.Unres("R10e", "go-client RPC methods", "", "no RPC method found in any client variant")
 	} else {
@@ -628,6 +648,13 @@ func checkClientErrorMapping(c *Ctx) {
 	r.Check(strings.Contains(txt, "resp.status === 400") && strings.Contains(txt, "parsed.violations") && strings.Contains(txt, "new ValidationError(parsed.violations)"),
 		"R10e", "ts-client handleError: 400 with violations becomes ValidationError", "", "the TS client's 400/violations mapping changed")
 	r.Check(strings.Contains(txt, "throw new ApiError(resp.status,") && strings.Contains(txt, ", body)"), "R10e", "ts-client handleError: other failures throw ApiError(status, …, body)", "", "the TS client's fallback error does not carry status and body")
+	// a fetch body can be consumed once: handleError reads it with exactly one of resp.text() / resp.json() / …
+	nReads := 0
+	for _, m := range []string{"resp.text()", "resp.json()", "resp.arrayBuffer()", "resp.blob()", "resp.formData()"} {
+		nReads += strings.Count(txt, m)
+	}
+	r.Check(nReads == 1, "R10e", "ts-client handleError reads the response body exactly once", "",
+		fmt.Sprintf("the emitted handleError consumes the response body %d times: the second read of a fetch body rejects with `TypeError: Body is unusable`, so a 400 whose body is not a violations object (a hook's own error, plain text) surfaces as a TypeError instead of ApiError(status, …, body)", nReads))
 	// TS server side constants
 	sri := c.Root("internal/tsservergen", "_server.ts")
 	if sri != nil {
